@@ -55,7 +55,7 @@ func C17(c *Ctx) {
 	c.R.Rule("C17-R1", "E4", "lockset: timers map under the timers mutex; change cache under the crew mutex", 12)
 	c.R.Rule("C17-R2", "E3+E7", "one shot: emit in no loop; one goroutine per entry", 4)
 	c.R.Rule("C17-R3", "E5", "never early", 2)
-	c.R.Rule("C17-R4", "E3", "revalidate by identity and release under the lock before firing", 6)
+	c.R.Rule("C17-R4", "E3", "revalidate by identity and release under the lock before firing", 4)
 	c.R.Rule("C17-R5", "E3", "no bookkeeping after the emit", 2)
 	c.R.Rule("C17-R6", "E3", "cancel and delivery", 3)
 	impls := []timerImpl{
@@ -264,75 +264,87 @@ func C17(c *Ctx) {
 			}
 		}
 		// ---- R4 revalidation
-		var lookup *ssa.Lookup
-		var identity ssa.Value
-		identityTrueIsEq := true
-		for _, f := range flow.FactsAt(E.Block()) {
-			bo, ok := f.Cond.(*ssa.BinOp)
-			if !ok {
-				continue
-			}
-			if !((bo.Op == token.EQL && f.True) || (bo.Op == token.NEQ && !f.True)) {
-				continue
-			}
-			x, y := bo.X, bo.Y
-			if ti.ownEntry(x) {
-				x, y = y, x
-			}
-			if !ti.ownEntry(y) {
-				continue
-			}
-			if ex, isEx := x.(*ssa.Extract); isEx && ex.Index == 0 {
-				if lk, isLk := ex.Tuple.(*ssa.Lookup); isLk && ti.isMap(lk.X) {
-					lookup, identity = lk, bo
-					identityTrueIsEq = bo.Op == token.EQL
+		// revalidated: at block b of fn it is known that the map (looked up under the mutex) still held the
+		// goroutine's own entry, and that entry was deleted under the mutex on that edge before reaching b
+		revalidated := func(fn *ssa.Function, b *ssa.BasicBlock, extra []flow.Fact) (bool, string) {
+			var lookup *ssa.Lookup
+			for _, f := range append(flow.FactsAt(b), extra...) {
+				bo, ok := f.Cond.(*ssa.BinOp)
+				if !ok || !((bo.Op == token.EQL && f.True) || (bo.Op == token.NEQ && !f.True)) {
+					continue
+				}
+				x, y := bo.X, bo.Y
+				if ti.ownEntry(x) {
+					x, y = y, x
+				}
+				if !ti.ownEntry(y) {
+					continue
+				}
+				if ex, isEx := x.(*ssa.Extract); isEx && ex.Index == 0 {
+					if lk, isLk := ex.Tuple.(*ssa.Lookup); isLk && ti.isMap(lk.X) {
+						lookup = lk
+					}
 				}
 			}
-		}
-		_ = identityTrueIsEq
-		c.R.Check(lookup != nil, "C17-R4", ti.name+": emit only if the map still holds this entry", c.pos(E), "emit is dominated by 'map[id] == own entry'", "the firing goroutine does not check (by identity) that its entry is still the one in the map: a cancelled timer can fire, and a timer re-created under the id can be mistaken for it")
-		if lookup != nil {
-			held := la.Held(lookup)
-			c.R.Check(held[ti.lock] == lockset.W, "C17-R4", ti.name+": revalidation under the timers mutex", c.pos(lookup), "held: "+held.String(), "the lookup is not made under the timers mutex")
-			// the receive precedes the lookup
-			c.R.Check(!flow.InCycle(lookup.Block()), "C17-R4", ti.name+": revalidation happens once, after the receive", c.pos(lookup), "not in a loop", "revalidation is inside a loop")
-			// delete on the identity edge, under the lock, before the emit
+			if lookup == nil {
+				return false, "no identity test 'map[id] == own entry' guards this point"
+			}
+			if la.Held(lookup)[ti.lock] != lockset.W {
+				return false, "the lookup is not made under the timers mutex"
+			}
+			if flow.InCycle(lookup.Block()) {
+				return false, "revalidation is inside a loop"
+			}
 			var del ssa.Instruction
-			ssau.Instrs(G, func(in ssa.Instruction) {
+			ssau.Instrs(fn, func(in ssa.Instruction) {
 				if ci, ok := in.(ssa.CallInstruction); ok {
-					if b, isB := ci.Common().Value.(*ssa.Builtin); isB && b.Name() == "delete" && ti.isMap(ci.Common().Args[0]) {
+					if bi, isB := ci.Common().Value.(*ssa.Builtin); isB && bi.Name() == "delete" && ti.isMap(ci.Common().Args[0]) {
 						del = in
 					}
 				}
 			})
-			okDel := false
-			why := "the entry is not removed from the map before the emit"
-			if del != nil {
-				onEdge := false
-				for _, f := range flow.FactsAt(del.Block()) {
-					if bo, ok := f.Cond.(*ssa.BinOp); ok {
-						x, y := bo.X, bo.Y
-						if ti.ownEntry(x) {
-							x, y = y, x
-						}
-						if ti.ownEntry(y) {
-							if ex, isEx := x.(*ssa.Extract); isEx && ex.Tuple == ssa.Value(lookup) && ((bo.Op == token.EQL && f.True) || (bo.Op == token.NEQ && !f.True)) {
-								onEdge = true
-							}
+			if del == nil {
+				return false, "the entry is not removed from the map before firing"
+			}
+			onEdge := false
+			for _, f := range flow.FactsAt(del.Block()) {
+				if bo, ok := f.Cond.(*ssa.BinOp); ok {
+					x, y := bo.X, bo.Y
+					if ti.ownEntry(x) {
+						x, y = y, x
+					}
+					if ti.ownEntry(y) {
+						if ex, isEx := x.(*ssa.Extract); isEx && ex.Tuple == ssa.Value(lookup) && ((bo.Op == token.EQL && f.True) || (bo.Op == token.NEQ && !f.True)) {
+							onEdge = true
 						}
 					}
 				}
-				heldD := la.Held(del)
-				before := flow.Reachable(del.Block(), E.Block(), nil) && !flow.Reachable(E.Block(), del.Block(), nil)
-				if onEdge && heldD[ti.lock] == lockset.W && before {
-					okDel = true
-				} else {
-					why = fmt.Sprintf("delete: on the identity edge=%v, under the mutex=%v, before the emit=%v", onEdge, heldD[ti.lock] == lockset.W, before)
+			}
+			before := flow.Reachable(del.Block(), b, nil) && !flow.Reachable(b, del.Block(), nil)
+			if !(onEdge && la.Held(del)[ti.lock] == lockset.W && before) {
+				return false, fmt.Sprintf("delete: on the identity edge=%v, under the mutex=%v, before this point=%v", onEdge, la.Held(del)[ti.lock] == lockset.W, before)
+			}
+			return true, ""
+		}
+		okReval, whyReval := revalidated(G, E.Block(), nil)
+		if !okReval {
+			// the claim may live in a helper that returns true only after a successful revalidation
+			for _, cl := range factCallTrue(E.Block()) {
+				h := cl.Common().StaticCallee()
+				if h == nil || prog.PkgOf(h) != ti.pkg {
+					continue
+				}
+				for ri := 0; ri < h.Signature.Results().Len(); ri++ {
+					if bt, isB := h.Signature.Results().At(ri).Type().Underlying().(*types.Basic); isB && bt.Kind() == types.Bool {
+						if trueImplies(h, ri, func(b *ssa.BasicBlock, extra []flow.Fact) bool { ok, _ := revalidated(h, b, extra); return ok }) {
+							okReval = true
+							c.R.Fn(fname(h))
+						}
+					}
 				}
 			}
-			c.R.Check(okDel, "C17-R4", ti.name+": entry released under the lock before firing", c.pos(E), "delete(map, id) on the identity edge, under the mutex, before the emit", why)
-			_ = identity
 		}
+		c.R.Check(okReval, "C17-R4", ti.name+": emit only if the map still holds this entry, which is released under the lock first", c.pos(E), "emit is dominated by 'map[id] == own entry' under the mutex, with the entry deleted on that edge", "the firing goroutine does not (under the mutex) check by identity that its entry is still the one in the map and remove it before firing: a cancelled timer can fire, and a timer re-created under the id can be mistaken for it: "+whyReval)
 		// emit not under the timers mutex (the handler may add or remove timers)
 		heldE := la.Held(E)
 		c.R.Check(heldE[ti.lock] == lockset.None, "C17-R4", ti.name+": emit outside the timers mutex", c.pos(E), "held: "+heldE.String(), "the emitter is called with the timers mutex held: a handler that creates or cancels a timer deadlocks")
@@ -380,8 +392,8 @@ func C17(c *Ctx) {
 					}
 				}
 			})
-			if del == nil {
-				continue
+			if del == nil || cls == nil {
+				continue // cancel = the function that closes the entry's control channel
 			}
 			ncancel++
 			hd := la.Held(del)
